@@ -111,6 +111,8 @@ func (*Watermark).update
   ensures no-idle: wm.idleTimeout <= 0 ==> wm.currentWatermark == old(wm.currentWatermark) || wm.currentWatermark == wm.maxEventTime - wm.maxOutOfOrderness
   ensures untouched-before-first-event: zero(wm.maxEventTime) ==> wm.currentWatermark == old(wm.currentWatermark)
   ensures inv: wmInv(wm)
+  observe now := Now
+  atreturn the-watermark-trails-the-newest-event-by-the-tolerance-and-the-clock-only-when-the-source-is-idle: wm.currentWatermark == old(wm.currentWatermark) || wm.currentWatermark == wm.maxEventTime - wm.maxOutOfOrderness || (wm.idleTimeout > 0 && !zero(wm.lastEventTime) && $now - wm.lastEventTime > wm.idleTimeout && wm.currentWatermark == $now - wm.maxOutOfOrderness)
 
 func (*Watermark).GetCurrentWatermark
   props C02 C01 C08 C10
@@ -158,6 +160,7 @@ func (*TumblingWindow).getWindowKey
 func (*TumblingWindow).sendResult
   props C01 C02
   modifies tw.sentCount, tw.droppedCount
+  before After under-the-blocking-policy-a-batch-waits-the-configured-time-for-room-five-seconds-when-none-is-configured: $arg0 == ite(tw.config.PerformanceConfig.OverflowConfig.BlockTimeout <= 0, 5000000000, tw.config.PerformanceConfig.OverflowConfig.BlockTimeout)
   ensures true
 
 func (*TumblingWindow).extractLateUpdateDataLocked
@@ -248,6 +251,7 @@ func NewWatermark
 func NewTumblingWindow
   props C01 C02
   modifies *
+  before NewWatermark the-watermark-trails-by-the-configured-tolerance: $arg0 == config.MaxOutOfOrderness && $arg2 == config.IdleTimeout
   ensures inv: result1 == nil ==> result0 != nil && twInv(result0) && !result0.initialized && len(result0.data) == 0
   ensures size-positive: result1 == nil ==> result0.size > 0
 
@@ -260,6 +264,7 @@ func (*TumblingWindow).SetCallback
 func (*TumblingWindow).Reset
   props C01 C02
   modifies *
+  before NewWatermark a-reset-window-keeps-the-configured-tolerance: $arg0 == tw.config.MaxOutOfOrderness && $arg2 == tw.config.IdleTimeout
   ensures cleared: !tw.initialized && tw.currentSlot == nil && len(tw.data) == 0
 
 func (*TumblingWindow).Trigger
@@ -328,6 +333,7 @@ func (*SlidingWindow).getWindowKey
 func (*SlidingWindow).sendResult
   props C08 C02
   modifies sw.sentCount, sw.droppedCount
+  before After under-the-blocking-policy-a-batch-waits-the-configured-time-for-room-five-seconds-when-none-is-configured: $arg0 == ite(sw.config.PerformanceConfig.OverflowConfig.BlockTimeout <= 0, 5000000000, sw.config.PerformanceConfig.OverflowConfig.BlockTimeout)
   ensures true
 
 func (*SlidingWindow).extractWindowDataLocked
@@ -455,11 +461,13 @@ func (*SlidingWindow).Trigger
 func (*SlidingWindow).Reset
   props C08 C02
   modifies *
+  before NewWatermark a-reset-window-keeps-the-configured-tolerance: $arg0 == sw.config.MaxOutOfOrderness && $arg2 == sw.config.IdleTimeout
   ensures cleared: !sw.initialized && sw.currentSlot == nil && len(sw.data) == 0
 
 func NewSlidingWindow
   props C08 C02
   modifies *
+  before NewWatermark the-watermark-trails-by-the-configured-tolerance: $arg0 == config.MaxOutOfOrderness && $arg2 == config.IdleTimeout
   ensures inv: result1 == nil ==> result0 != nil && swInv(result0) && !result0.initialized && len(result0.data) == 0
 @*/
 
@@ -480,6 +488,7 @@ extern (*CountingWindow).getKey
 func (*CountingWindow).sendResult
   props C09 C04
   modifies cw.sentCount, cw.droppedCount
+  before After under-the-blocking-policy-a-batch-waits-the-configured-time-for-room-five-seconds-when-none-is-configured: $arg0 == ite(cw.config.PerformanceConfig.OverflowConfig.BlockTimeout <= 0, 5000000000, cw.config.PerformanceConfig.OverflowConfig.BlockTimeout)
   ensures true
 
 func (*CountingWindow).createSlot
@@ -541,6 +550,7 @@ func NewCountingWindow
 // ---------------------------------------------------------------- global window (C17)
 guarded_by GlobalWindow.mu: groups, callback, stopped
 monitor GlobalWindow.mu inv gwInv
+immutable GlobalWindow: countStateTTL
 
 pred specMatches(gw, j, t, f) := gw.outputSpecs[j].aggType == t && normalizeField(gw.outputSpecs[j].inputField) == normalizeField(f)
 pred trigSpecNamed(sp, ref, j) := sp.placeholder == fmt.Sprintf("__trig_%d__", j) && strings.ToLower(sp.aggType) == strings.ToLower(ref.triggerAggRef.funcName) && sp.inputField == ref.triggerAggRef.inputField
@@ -608,15 +618,25 @@ func toAggregateValue
   option pure
   ensures non-null-stays-non-null: v != nil ==> result != nil
 
+// howMany(m, n): the number of indices below n at which m holds
+recfunc howMany((m (Array Int Bool)) (n Int)) Int := (ite (<= n 0) 0 (+ (@howMany m (- n 1)) (ite (select m (- n 1)) 1 0)))
+pred hasInput(data, f) := f == "*" || (second(lookupFieldValue(data, f)) && lookupFieldValue(data, f) != nil)
+
 func feedAggs
   props C17 C04 C12
   modifies pkgheaps(functions)
+  count fed := Add
+  atreturn every-aggregate-with-an-input-on-this-row-is-fed-once-whatever-the-others-see: $fed == howMany(arrayof(j, 0, target[specs[j].alias] != nil && hasInput(data, specs[j].inputField)), len(specs))
+  loop 1 invariant $fed == howMany(arrayof(j, 0, target[specs[j].alias] != nil && hasInput(data, specs[j].inputField)), $i)
   before Add null-or-missing-input-is-never-fed: $arg1 != nil
   before Add only-count-star-counts-rows-every-other-aggregate-is-fed-the-rows-own-value: (spec.inputField == "*" ==> $arg1 == boxof(1, int)) && (spec.inputField != "*" ==> second(lookupFieldValue(data, spec.inputField)) && lookupFieldValue(data, spec.inputField) != nil && $arg1 == toAggregateValue(lookupFieldValue(data, spec.inputField)))
 
 func feedTriggerAggs
   props C17 C04 C12
   modifies pkgheaps(functions)
+  count fed := Add
+  atreturn every-trigger-only-aggregate-with-an-input-on-this-row-is-fed-once-whatever-the-others-see: $fed == howMany(arrayof(j, 0, specs[j].prototype != nil && target[specs[j].placeholder] != nil && hasInput(data, specs[j].inputField)), len(specs))
+  loop 1 invariant $fed == howMany(arrayof(j, 0, specs[j].prototype != nil && target[specs[j].placeholder] != nil && hasInput(data, specs[j].inputField)), $i)
   before Add null-or-missing-input-is-never-fed: $arg1 != nil
   before Add only-count-star-counts-rows-every-other-aggregate-is-fed-the-rows-own-value: (spec.inputField == "*" ==> $arg1 == boxof(1, int)) && (spec.inputField != "*" ==> second(lookupFieldValue(data, spec.inputField)) && lookupFieldValue(data, spec.inputField) != nil && $arg1 == toAggregateValue(lookupFieldValue(data, spec.inputField)))
 
@@ -628,10 +648,18 @@ func newGroupState
   loop 2 invariant fresh(gs) && fresh(gs.keyValues) && fresh(gs.outputAggs) && fresh(gs.triggerAggs) && !gs.hasData && gs.key == key
   loop 3 invariant fresh(gs) && fresh(gs.keyValues) && fresh(gs.outputAggs) && fresh(gs.triggerAggs) && !gs.hasData && gs.key == key
 
+// the decision of a row is the compiled predicate's, asked once over every aggregate the group has (a NULL aggregate
+// value is handed over as NULL; it is the predicate that decides what NULL means)
+pred trigAggLive(gw, gs, j) := ite(gw.triggerSpecs[j].outputAlias != "", gs.outputAggs[gw.triggerSpecs[j].outputAlias] != nil, gs.triggerAggs[gw.triggerSpecs[j].placeholder] != nil)
+
 func (*GlobalWindow).shouldFire
   props C17 C04 C12
   held gw.mu
-  ensures true
+  count asked := Evaluate
+  observe verdict := Evaluate
+  before Evaluate every-aggregate-the-group-has-is-bound-to-its-placeholder-null-or-not: forall(j, 0, len(gw.triggerSpecs), trigAggLive(gw, gs, j) ==> dom(env, gw.triggerSpecs[j].placeholder))
+  atreturn the-compiled-predicate-is-asked-once-and-its-answer-is-the-decision: $asked == 1 && result == $verdict
+  loop 1 invariant $asked == 0 && forall(j, 0, $i, trigAggLive(gw, gs, j) ==> dom(env, gw.triggerSpecs[j].placeholder))
 
 func (*GlobalWindow).buildResult
   props C17 C04 C12
@@ -652,8 +680,8 @@ func (*GlobalWindow).processRow
   count fedOut := feedAggs
   count fedTrig := feedTriggerAggs
   before shouldFire row-is-fed-exactly-once-before-the-predicate-is-tested: $fedOut == 1 && $fedTrig == 1
-  ensures fires-whenever-the-predicate-holds: $fire ==> $delivered == 1
-  ensures at-most-one-result-per-row: $delivered <= 1
+  atreturn fires-whenever-the-predicate-holds: $fire ==> $delivered == 1
+  atreturn at-most-one-result-per-row: $delivered <= 1
   before deliver fires-only-when-the-predicate-holds: $fire
   before deliver delivers-the-result-built-for-this-group: $arg1 == $built
   before deliver group-is-purged-before-delivery: !dom(gw.groups, key)
@@ -663,6 +691,19 @@ func (*GlobalWindow).processRow
   before Unlock group-kept-while-predicate-is-false: wheld(gw.mu) && !$fire && gs != nil ==> dom(gw.groups, key) && gw.groups[key] == gs
   loop 1 invariant held(gw.mu) && wheld(gw.mu) && gs != nil && gs.keyValues != nil && dom(gw.groups, key) && gw.groups[key] == gs && gwInv(gw)
   loop 1 invariant forallv(k, "", k != key ==> (dom(gw.groups, k) <==> old(dom(gw.groups, k))) && gw.groups[k] == old(gw.groups[k]))
+
+// group state lives until its group fires; it is reaped on a timer only when a state TTL is configured
+func (*GlobalWindow).Start$1
+  props C17 C04 C12
+  modifies *
+  before reapIdleKeys idle-state-is-reaped-only-under-a-configured-ttl: gw.countStateTTL > 0
+  before NewTicker the-reaper-ticks-at-half-the-ttl-but-not-faster-than-once-a-second: gw.countStateTTL > 0 && $arg0 == ite(gw.countStateTTL / 2 < 1000000000, 1000000000, gw.countStateTTL / 2)
+  loop 1 invariant gw.countStateTTL == old(gw.countStateTTL) && (tickChan != nil ==> gw.countStateTTL > 0)
+
+func (*GlobalWindow).sendResult
+  props C17 C04 C12
+  modifies gw.sentCount, gw.droppedCount
+  before After under-the-blocking-policy-a-result-waits-the-configured-time-for-room-five-seconds-when-none-is-configured: $arg0 == ite(gw.config.PerformanceConfig.OverflowConfig.BlockTimeout <= 0, 5000000000, gw.config.PerformanceConfig.OverflowConfig.BlockTimeout)
 
 func (*GlobalWindow).reapIdleKeys
   props C17 C04 C12
@@ -780,11 +821,18 @@ func (*SessionWindow).closeExpiredSessions
   loop 1 invariant forallv(k, "", dom(sw.triggeredSessions, k) <==> old(dom(sw.triggeredSessions, k)) && !($visited[k] && watermarkTime >= old(sw.triggeredSessions[k].closeTime)))
   loop 1 invariant forallv(k, "", dom(sw.triggeredSessions, k) ==> sw.triggeredSessions[k] == old(sw.triggeredSessions[k]))
 
+func (*SessionWindow).sendResult
+  props C10 C02 C04
+  modifies sw.sentCount, sw.droppedCount
+  before After under-the-blocking-policy-a-batch-waits-the-configured-time-for-room-five-seconds-when-none-is-configured: $arg0 == ite(sw.config.PerformanceConfig.OverflowConfig.BlockTimeout <= 0, 5000000000, sw.config.PerformanceConfig.OverflowConfig.BlockTimeout)
+
 func (*SessionWindow).checkAndTriggerSessions
   props C10 C02 C04
   acquires sw.mu
   modifies *
   observe batch := collectExpiredSessions
+  before collectExpiredSessions sessions-end-against-the-watermark-itself-not-a-later-time: $arg1 == watermarkTime
+  before closeExpiredSessions the-lateness-allowance-runs-against-the-watermark-itself: $arg1 == watermarkTime
   before sendResults sends-exactly-what-expired-under-the-lock: resultsToSend == $batch
 
 func (*SessionWindow).checkExpiredSessions
@@ -803,6 +851,7 @@ func (*SessionWindow).SetCallback
 func (*SessionWindow).Reset
   props C10 C02 C04
   modifies *
+  before NewWatermark a-reset-window-keeps-the-configured-tolerance: $arg0 == sw.config.MaxOutOfOrderness && $arg2 == sw.config.IdleTimeout
 
 func (*SessionWindow).Trigger
   props C10 C02 C04
@@ -816,6 +865,7 @@ func (*SessionWindow).Stop
 func NewSessionWindow
   props C10 C02 C04
   modifies *
+  before NewWatermark the-watermark-trails-by-the-configured-tolerance-whatever-the-timeout: $arg0 == config.MaxOutOfOrderness && $arg2 == config.IdleTimeout
   ensures inv: result1 == nil ==> result0 != nil && ssInv(result0) && !result0.initialized
   ensures no-open-session: result1 == nil ==> forallv(k, "", !dom(result0.sessionMap, k))
 
